@@ -1,4 +1,5 @@
 import Dyce.RollProofs
+import Dyce.RollState
 import Dyce.Props.C02
 /-!
 # C10 — H.roll and P.roll sample exactly the encoded distribution
@@ -22,7 +23,9 @@ weights (cumulative weights + bisect of `random()·total`).
 | never a zero-count outcome; `0` for a zero-total histogram | `C10_hroll_never_zero_count`, `C10_hroll_zero_total` |
 | `p.roll()`: weight of each sorted roll = its weight in the Cartesian product = its `rolls_with_counts()` count (C02) | `C10_proll_distribution`, `C10_proll_matches_rolls_with_counts` |
 | one independent draw per die, in pool order | `C10_one_draw_per_die` |
-| the generator installed at call time is the only source; equally seeded generators reproduce the rolls | correspondence (scripted generators swapped between calls, request log) |
+| the generator's answers are the only input besides the dice: one answer per die, in pool order, the rest of the stream handed on untouched; equal answer streams reproduce the roll | `C10_stream_only_source`, `C10_stream_one_answer_per_die`, `C10_equal_streams_reproduce` |
+| the stream view has the encoded distribution (of the `total` equally likely answers exactly `h[o]` return `o`; never a zero-count face) and agrees with the weighted-list model | `C10_stream_distribution`, `C10_stream_never_zero_count`, `C10_stream_matches_weighted` |
+| that the generator consulted is the one installed as `dyce.rng.RNG` *at the time of the call* | correspondence (scripted generators swapped between calls, request log) |
 
 Partial: fairness of the real bit generator and the floating-point product `random()*total` inside
 CPython's `choices` are outside the proof.
@@ -78,5 +81,48 @@ theorem C10_proll_matches_rolls_with_counts (hle : TotalOrderB (fun a b : Int =>
 /-- `P.roll` asks for exactly one weighted choice per die, in pool order -/
 theorem C10_one_draw_per_die (h : Hist Int) (hs : List (Hist Int)) :
     rollDiceW (h :: hs) = (do let v ← rollHist h; let r ← rollDiceW hs; pure (v :: r)) := rfl
+
+/-! ### the generator-threading view (`Dyce/RollState.lean`) -/
+
+/-- of the `total` equally likely generator answers exactly `h[o]` make `h.roll()` return `o` -/
+theorem C10_stream_distribution (h : Hist Int) (o : Int) :
+    ((List.range (total h)).filter fun u => (rollHistS h [u]).1 = o).length = countOf o h := by
+  by_cases hT : total h = 0
+  · have : countOf o h = 0 := by rw [← faceAt_count, hT]; simp
+    simp [hT, this]
+  · simp only [rollHistS, if_neg hT]; exact faceAt_count h o
+
+theorem C10_stream_never_zero_count (h : Hist Int) (u : Nat) (hu : u < total h) (rest : List Nat) :
+    countOf (rollHistS h (u :: rest)).1 h ≠ 0 := by
+  have hT : total h ≠ 0 := by omega
+  simp only [rollHistS, if_neg hT]; exact faceAt_never_zero_count h u hu
+
+/-- the stream view and the weighted-list model (the one run against the real code) agree -/
+theorem C10_stream_matches_weighted (h : Hist Int) (hT : total h ≠ 0) (o : Int) :
+    ((List.range (total h)).filter fun u => (rollHistS h [u]).1 = o).length = countOf o (rollHist h) := by
+  rw [C10_stream_distribution, C10_hroll_distribution h hT]
+
+/-- `p.roll()` reads one answer per die and hands the rest of the stream on untouched: the roll is a
+function of the dice and those answers alone -/
+theorem C10_stream_only_source (hs : List (Hist Int)) (hpos : ∀ h ∈ hs, total h ≠ 0)
+    (pre rest : List Nat) (hlen : pre.length = hs.length) :
+    rollPoolS hs (pre ++ rest) = ((rollPoolS hs pre).1, rest) := rollPoolS_append hs hpos pre rest hlen
+
+/-- the `i`-th die's face is decided by the `i`-th answer alone; the roll is the sorted tuple -/
+theorem C10_stream_one_answer_per_die (hs : List (Hist Int)) (hpos : ∀ h ∈ hs, total h ≠ 0)
+    (pre : List Nat) (hlen : pre.length = hs.length) :
+    (rollPoolS hs pre).1
+      = ((hs.zip pre).map fun hu => faceAt hu.1 hu.2).mergeSort fun a b => decide (a ≤ b) := by
+  unfold rollPoolS; simp only [rollDiceS_eq_zip hs hpos pre hlen]
+
+/-- two generators that give the same answers to the pool's draws (equally seeded) give the same
+roll, whatever either would answer afterwards -/
+theorem C10_equal_streams_reproduce (hs : List (Hist Int)) (hpos : ∀ h ∈ hs, total h ≠ 0)
+    (pre rest₁ rest₂ : List Nat) (hlen : pre.length = hs.length) :
+    (rollPoolS hs (pre ++ rest₁)).1 = (rollPoolS hs (pre ++ rest₂)).1 := by
+  rw [C10_stream_only_source hs hpos pre rest₁ hlen, C10_stream_only_source hs hpos pre rest₂ hlen]
+
+/-! non-vacuity: 2d{1:1,2:2} with answers 2, 0 (then 7) draws faces 2, 1 in pool order and leaves 7 -/
+example : rollDiceS [[(1, 1), (2, 2)], [(1, 1), (2, 2)]] [2, 0, 7] = ([2, 1], [7]) := by decide
 
 end Dyce
